@@ -119,7 +119,7 @@ def check(run, prog, tier):
 
     # ------------------------------------------------------------------ F1 filter agreement
     ms = cx.m("config.Service", "matches_service").qual
-    for name in ("_notify_service_offered", "_notify_service_stopped", "watch_service", "stop_watch_service", "_service_found"):
+    for name in ("_notify_service_offered", "_notify_service_stopped", "watch_service", "stop_watch_service"):
         fi = cx.m(DISC, name)
         evs = cx.scan.events(fi.qual)
         preds = [e for e in evs if e.kind == "call" and e.targets and e.targets[0].cls is not None and e.targets[0].cls.qual == "config.Service"
